@@ -2,7 +2,7 @@
 import ast
 import copy
 
-from ..astutil import FuncTree, dominates, inline_temporaries
+from ..astutil import FuncTree, dominates, inline_temporaries, expand_delegation
 from ..common import norm_stmt, site_id
 from ..deps import names_in, base_name, index_names
 from ..index import AnalysisError
@@ -48,13 +48,16 @@ def run(p, report, tier):
     fi = p.get_func(mod, "rand_argmin")
     sb = p.get_func(mod, "simple_batch")
     # --- R18.1
-    a = _norm_body(fa.node, "nanmax")
-    b = _norm_body(fi.node, "nanmin")
+    # a sibling that merely delegates to a shared private helper is looked at through the helper
+    xa = expand_delegation(p, fa)
+    xi = expand_delegation(p, fi)
+    a = _norm_body(xa, "nanmax")
+    b = _norm_body(xi, "nanmin")
     report.add("R18.1", "rand_argmax/rand_argmin", "sibling bodies identical up to nanmax<->nanmin",
                f"{fa.file}:{fa.node.lineno}", a == b,
                detail="identical" if a == b else "the two siblings differ in more than the optimum function")
-    for f, opt, other in ((fa, "nanmax", "nanmin"), (fi, "nanmin", "nanmax")):
-        fin = inline_temporaries(f.node)
+    for f, opt, other, xn in ((fa, "nanmax", "nanmin", xa), (fi, "nanmin", "nanmax", xi)):
+        fin = inline_temporaries(xn)
         uses = [n for n in ast.walk(fin) if isinstance(n, ast.Attribute) and n.attr in ("nanmax", "nanmin", "max", "min",
                                                                                               "amax", "amin")]
         ok = any(u.attr == opt for u in uses) and not any(u.attr != opt for u in uses)
